@@ -9,7 +9,7 @@ from _erg_contains_operator import contains_operator  # noqa: E402
 from _erg_int import Int  # noqa: E402
 from _erg_nat import Nat  # noqa: E402
 from _erg_str import Str  # noqa: E402
-from _erg_range import ClosedRange  # noqa: E402
+from _erg_range import ClosedRange, LeftOpenRange, OpenRange, RightOpenRange  # noqa: E402
 from _erg_type import UnionType  # noqa: E402
 
 
@@ -24,7 +24,8 @@ def pat(p):
     if k == "class":
         return {"Int": Int, "Nat": Nat, "Str": Str, "Obj": object}[p[1]]
     if k == "range":
-        return ClosedRange(lit(["int", p[1]]), lit(["int", p[2]]))
+        cls = {"cc": ClosedRange, "oc": LeftOpenRange, "co": RightOpenRange, "oo": OpenRange}[p[1]]
+        return cls(lit(["int", p[2]]), lit(["int", p[3]]))
     if k == "enum":
         return set(lit(x) for x in p[1])
     if k == "or":
